@@ -1,8 +1,165 @@
-//! Component lane: many seeded runs per process against crate-internal components.
+//! Component lane: many scenarios per process against crate-internal components, under the
+//! same virtual clock. The scenarios are explicit (generated and judged by the orchestrator);
+//! this module only executes them against the real code and reports what came out.
 
+use super::actors::{hex, unhex, Fnv, StreamGen};
 use super::Plan;
+use crate::common::fragment::Fragments;
+use crate::common::frames::Frame;
+use crate::context::TargetAddress;
+use bytes::Bytes;
 use serde_json::{json, Value};
+use std::panic::{catch_unwind, AssertUnwindSafe};
+use std::time::Duration;
 
-pub async fn run(_plan: &Plan) -> Value {
-    json!({"component": "none"})
+fn mk_frame(f: &Value) -> Frame {
+    let len = f["len"].as_u64().unwrap_or(0) as usize;
+    let seed = f["seed"].as_u64().unwrap_or(1);
+    let body = StreamGen::new(seed).take(len);
+    let mut fr = Frame::from_body(Bytes::from(body));
+    fr.session_id = f["sid"].as_u64().unwrap_or(0) as u32;
+    fr.addr = match f["addr"].as_str() {
+        None | Some("") => None,
+        Some(a) => match a.parse::<std::net::SocketAddr>() {
+            Ok(sa) => Some(TargetAddress::SocketAddr(sa)),
+            Err(_) => {
+                let (h, p) = a.rsplit_once(':').unwrap_or((a, "0"));
+                Some(TargetAddress::DomainPort(h.to_string(), p.parse().unwrap_or(0)))
+            }
+        },
+    };
+    fr
+}
+
+fn describe(fr: &Frame) -> Value {
+    let mut h = Fnv::new();
+    h.update(&fr.body);
+    json!({"sid": fr.session_id, "addr": fr.addr.as_ref().map(|a| a.to_string()), "len": fr.body.len(), "hash": h.hex()})
+}
+
+async fn fragment_scenario(sc: &Value) -> Value {
+    let mtu = sc["mtu"].as_u64().unwrap_or(1200) as usize;
+    let mut id = sc["start_id"].as_u64().unwrap_or(0) as u16;
+    let frames: Vec<Value> = sc["frames"].as_array().cloned().unwrap_or_default();
+    let mut frags: Vec<Vec<Bytes>> = Vec::new();
+    let mut sent = Vec::new();
+    let mut panics: Vec<Value> = Vec::new();
+    for (k, f) in frames.iter().enumerate() {
+        let fr = mk_frame(f);
+        sent.push(describe(&fr));
+        let r = catch_unwind(AssertUnwindSafe(|| Fragments::<Frame>::make_fragments(mtu, &mut id, fr).collect::<Vec<Bytes>>()));
+        match r {
+            Ok(v) => frags.push(v),
+            Err(_) => {
+                panics.push(json!({"where": "make_fragments", "frame": k}));
+                frags.push(Vec::new());
+            }
+        }
+    }
+    let timeout = sc["timeout_s"].as_u64().unwrap_or(5);
+    let mut f: Fragments<Frame> = Fragments::new(Duration::from_secs(timeout));
+    let mut delivered = Vec::new();
+    let mut since_tick_ms: u64 = 0;
+    let events: Vec<Value> = sc["events"].as_array().cloned().unwrap_or_default();
+    let mut bulk_ok = 0u64;
+    for (k, ev) in events.iter().enumerate() {
+        let kind = ev[0].as_str().unwrap_or("");
+        match kind {
+            "d" => {
+                let (i, j) = (ev[1].as_u64().unwrap_or(0) as usize, ev[2].as_u64().unwrap_or(0) as usize);
+                if let Some(b) = frags.get(i).and_then(|v| v.get(j)) {
+                    let b = b.clone();
+                    match catch_unwind(AssertUnwindSafe(|| f.reassemble(b))) {
+                        Ok(Some(fr)) => {
+                            let mut d = describe(&fr);
+                            d["ev"] = json!(k);
+                            delivered.push(d);
+                        }
+                        Ok(None) => {}
+                        Err(_) => panics.push(json!({"where": "reassemble", "ev": k})),
+                    }
+                }
+            }
+            "raw" => {
+                let b = Bytes::from(unhex(ev[1].as_str().unwrap_or("")));
+                match catch_unwind(AssertUnwindSafe(|| f.reassemble(b))) {
+                    Ok(Some(fr)) => {
+                        let mut d = describe(&fr);
+                        d["ev"] = json!(k);
+                        d["from_raw"] = json!(true);
+                        delivered.push(d);
+                    }
+                    Ok(None) => {}
+                    Err(_) => panics.push(json!({"where": "reassemble-raw", "ev": k, "hex": ev[1]})),
+                }
+            }
+            "sleep" => {
+                // the receiving task ticks once per second (quic_frames_thread's interval)
+                let mut ms = ev[1].as_u64().unwrap_or(0);
+                while ms > 0 {
+                    let step = ms.min(1000 - since_tick_ms);
+                    tokio::time::sleep(Duration::from_millis(step)).await;
+                    ms -= step;
+                    since_tick_ms += step;
+                    if since_tick_ms >= 1000 {
+                        since_tick_ms = 0;
+                        if catch_unwind(AssertUnwindSafe(|| f.timer())).is_err() {
+                            panics.push(json!({"where": "timer", "ev": k}));
+                        }
+                    }
+                }
+            }
+            "bulk" => {
+                // n frames of `len` bytes sent and delivered in order, one after the other (id wrap-around)
+                let n = ev[1].as_u64().unwrap_or(0);
+                let len = ev[2].as_u64().unwrap_or(0) as usize;
+                for q in 0..n {
+                    let mut fr = Frame::from_body(Bytes::from(StreamGen::new(q + 7).take(len)));
+                    fr.session_id = q as u32;
+                    let want = describe(&fr);
+                    let r = catch_unwind(AssertUnwindSafe(|| {
+                        let parts: Vec<Bytes> = Fragments::<Frame>::make_fragments(mtu, &mut id, fr).collect();
+                        let mut out = None;
+                        for p in parts {
+                            if let Some(x) = f.reassemble(p) {
+                                out = Some(x);
+                            }
+                        }
+                        out
+                    }));
+                    match r {
+                        Ok(Some(x)) => {
+                            if describe(&x) == want {
+                                bulk_ok += 1;
+                            } else {
+                                delivered.push(json!({"ev": k, "bulk_mismatch": q, "got": describe(&x), "want": want}));
+                            }
+                        }
+                        Ok(None) => delivered.push(json!({"ev": k, "bulk_missing": q, "id": id.wrapping_sub(1)})),
+                        Err(_) => {
+                            panics.push(json!({"where": "bulk", "ev": k, "q": q, "id": id}));
+                            // the sender's counter may be stuck where it trapped: step over it so the run can go on
+                            id = id.wrapping_add(1);
+                        }
+                    }
+                }
+            }
+            _ => {}
+        }
+    }
+    let counts: Vec<usize> = frags.iter().map(|v| v.len()).collect();
+    let heads: Vec<String> = frags.iter().map(|v| v.first().map(|b| hex(&b[..b.len().min(4)])).unwrap_or_default()).collect();
+    json!({"sent": sent, "fragment_counts": counts, "first_headers": heads, "delivered": delivered, "panics": panics, "bulk_ok": bulk_ok, "end_id": id})
+}
+
+pub async fn run(plan: &Plan) -> Value {
+    let c = plan.component.clone().unwrap_or(Value::Null);
+    let kind = c["kind"].as_str().unwrap_or("").to_string();
+    let mut results = Vec::new();
+    if kind == "fragments" {
+        for sc in c["scenarios"].as_array().cloned().unwrap_or_default() {
+            results.push(fragment_scenario(&sc).await);
+        }
+    }
+    json!({"component": kind, "results": results})
 }
